@@ -456,5 +456,5 @@ func c16PolicyGen(t *rapid.T) c16PolicyCase {
 
 func init() {
 	vfEnum("C16/policy-table", c16PolicyRule, 1, 2, 4, c16PolicyEnum, c16PolicyCheck)
-	vfRapid("C16/policy", c16PolicyRule, 20000, 800000, 8, c16PolicyGen, c16PolicyCheck)
+	vfRapid("C16/policy", c16PolicyRule, 20000, 1600000, 8, c16PolicyGen, c16PolicyCheck)
 }
